@@ -26,8 +26,8 @@ fn build_name() -> &'static str {
 }
 
 pub struct Known {
-    /// failure key -> finding id
-    pub by_key: HashMap<String, String>,
+    /// hash of the failure key -> (finding id, the widths at which the instance is known to fail, as inclusive ranges)
+    pub by_key: HashMap<String, (String, Vec<(usize, usize)>)>,
     pub findings: Vec<(String, String, String, usize)>, // id, property, what, listed instances
 }
 
@@ -42,11 +42,25 @@ pub fn load_known(prop: &str) -> Known {
         let what = f["what"].as_str().unwrap_or("").to_string();
         // instances are identified by the 64-bit FNV-1a hash of their key "class|config[ range]|program"
         // (the clear-text keys of a few of them are kept under "examples" for the reader)
-        let inst = f["instance_hashes"].as_array().cloned().unwrap_or_default();
-        for i in &inst {
-            if let Some(s) = i.as_str() {
-                k.by_key.insert(s.to_string(), id.clone());
-            }
+        // {"<hash>": "1-12,15", ...}: the widths are part of the identity of an instance, so that the same input failing at
+        // a NEW width is still reported
+        let empty = serde_json::Map::new();
+        let inst = f["instances"].as_object().unwrap_or(&empty);
+        for (h, r) in inst {
+            let ranges: Vec<(usize, usize)> = r
+                .as_str()
+                .unwrap_or("")
+                .split(',')
+                .filter(|x| !x.is_empty())
+                .filter_map(|x| match x.split_once('-') {
+                    Some((a, b)) => Some((a.parse().ok()?, b.parse().ok()?)),
+                    None => {
+                        let v = x.parse().ok()?;
+                        Some((v, v))
+                    }
+                })
+                .collect();
+            k.by_key.insert(h.clone(), (id.clone(), ranges));
         }
         k.findings.push((id, prop.to_string(), what, inst.len()));
     }
@@ -251,6 +265,7 @@ fn deep_phase(thorough: bool, stats: &mut Stats, failures: &mut Vec<Failure>, pl
             width: r.width,
             wmax: r.width,
             nwidths: 1,
+            widths: vec![r.width],
             range: None,
             detail,
             output: String::new(),
@@ -316,13 +331,36 @@ fn finish(prop: &str, tier: &str, engine: &str, stats: Stats, failures: Vec<Fail
     // dedupe failures by key
     let mut by_key: BTreeMap<String, Failure> = BTreeMap::new();
     for f in failures {
-        by_key.entry(f.key()).or_insert(f);
+        match by_key.get_mut(&f.key()) {
+            Some(e) => {
+                // the same instance observed again (another width): merge
+                for w in &f.widths {
+                    if !e.widths.contains(w) {
+                        e.widths.push(*w);
+                    }
+                }
+                e.nwidths = e.widths.len();
+                e.wmax = e.wmax.max(f.wmax);
+            }
+            None => {
+                by_key.insert(f.key(), f);
+            }
+        }
     }
     let mut reproduced: BTreeMap<String, usize> = BTreeMap::new();
     let mut unlisted: Vec<&Failure> = vec![];
+    let mut new_widths: HashMap<String, Vec<usize>> = HashMap::new();
     for (k, f) in &by_key {
         match known.by_key.get(&format!("{:016x}", fnv(k))) {
-            Some(id) => *reproduced.entry(id.clone()).or_insert(0) += 1,
+            Some((id, ranges)) => {
+                let uncovered: Vec<usize> = f.widths.iter().filter(|w| !ranges.iter().any(|(a, b)| **w >= *a && **w <= *b)).cloned().collect();
+                if uncovered.is_empty() {
+                    *reproduced.entry(id.clone()).or_insert(0) += 1
+                } else {
+                    new_widths.insert(k.clone(), uncovered);
+                    unlisted.push(f)
+                }
+            }
             None => unlisted.push(f),
         }
     }
@@ -338,7 +376,7 @@ fn finish(prop: &str, tier: &str, engine: &str, stats: Stats, failures: Vec<Fail
                 "group": g,
                 "count": fs.len(),
                 "examples": fs.iter().take(6).map(|f| failure_json(prop, f)).collect::<Vec<_>>(),
-                "instances": fs.iter().map(|f| json!({"key": f.key(), "output": f.output, "detail": f.detail, "wmin": f.width, "wmax": f.wmax, "n": f.nwidths})).collect::<Vec<_>>(),
+                "instances": fs.iter().map(|f| json!({"key": f.key(), "output": f.output, "detail": f.detail, "wmin": f.width, "wmax": f.wmax, "n": f.nwidths, "widths": f.widths.iter().map(|w| if *w > 100000 { 100000 } else { *w }).collect::<Vec<_>>()})).collect::<Vec<_>>(),
             }));
         }
         std::fs::write(&path, serde_json::to_string_pretty(&json!({ "property": prop, "groups": out })).unwrap()).unwrap();
@@ -365,6 +403,9 @@ fn finish(prop: &str, tier: &str, engine: &str, stats: Stats, failures: Vec<Fail
         let path = format!("{}/{:016x}.json", rdir, fnv(&f.key()));
         let mut j = failure_json(prop, f);
         j["group"] = json!(g);
+        if let Some(nw) = new_widths.get(&f.key()) {
+            j["note"] = json!(format!("this input is a listed known finding, but it now also fails at widths it did not fail at before: {:?}", nw));
+        }
         j["group_size"] = json!(fs.len());
         j["more"] = json!(fs2.iter().skip(1).take(10).map(|f| failure_json(prop, f)).collect::<Vec<_>>());
         std::fs::write(&path, serde_json::to_string_pretty(&j).unwrap()).unwrap();
